@@ -26,7 +26,10 @@ META = dict(
          "sent DISCONNECT / ended the transport. Round 3: (a) 15-attempt guessing runs and username-switch runs "
          "with 1..3 completed key re-exchanges (peer-initiated, renegotiate_keys(), packet threshold) between the "
          "requests; (b) an explicit matrix kind of earlier attempt {none, password fail, publickey fail, key query "
-         "answered PK_OK, key query refused, keyboard-interactive query} x {second username differs, same}.",
+         "answered PK_OK, key query refused, keyboard-interactive query} x {second username differs, same}. "
+         "Round 5: extra SSH_MSG_SERVICE_REQUEST messages (ssh-userauth, 1..3 of them, after the k-th failed attempt "
+         "for every k = 1..9; also other service names) inside the cap runs and between the two requests of the "
+         "pin cells.",
     note="Only what the statement says is encoded: partial success is not a failure; disconnecting earlier than "
          "required is not judged; what happens after a legitimate success is not judged. 'A request for a different "
          "username ends the connection' is read as: that request is not served, i.e. no credential callback is "
@@ -223,8 +226,13 @@ def draw_sequence(rng, mode):
     return users, seq
 
 
+MSG_SERVICE_REQUEST = 5
+
+
 def body_for(rng, sess, st):
     kind, user, svc = st
+    if kind == "service_request":  # round 5: an extra SSH_MSG_SERVICE_REQUEST in the middle of authentication
+        return MSG_SERVICE_REQUEST, sstr(svc)
     head = sstr(user) + sstr(svc)
     if kind == "none":
         return MSG_USERAUTH_REQUEST, head + sstr("none")
@@ -245,6 +253,30 @@ def body_for(rng, sess, st):
     sid = sess.att.att.session_id
     data = session_blob(sid if kind == "pk_valid" else bytes(len(sid)), user, svc, "ssh-ed25519", blob)
     return MSG_USERAUTH_REQUEST, head + sstr("publickey") + b"\x01" + sstr("ssh-ed25519") + sstr(blob) + sstr(k.sign_ssh_data(data).asbytes())
+
+
+def note_service_requests(ctx, sess):
+    """SERVICE_REQUEST messages the victim read after the first authentication request, by the number of failed
+    attempts it had answered before (victim's tap), and what it answered."""
+    fails = 0
+    seen_request = False
+    n = 0
+    for ep in episodes(sess.rec):
+        t = ep["msg"]["type"]
+        if t == MSG_USERAUTH_REQUEST:
+            seen_request = True
+        elif t == MSG_SERVICE_REQUEST and seen_request:
+            n += 1
+            name = ep["msg"]["payload"][5:]
+            own = name == b"ssh-userauth"
+            ctx.count("extra_service_request_read_mid_auth" if own else "extra_service_request_other_name_read_mid_auth")
+            if own:
+                ctx.count("extra_service_request_read_after_%d_failures" % fails)
+            outs = [o["type"] for o in ep["out"]]
+            ctx.count("extra_service_request_%s_answered_%s" % ("own" if own else "other_name",
+                                                               "accept" if 6 in outs else ("disconnect" if 1 in outs else "otherwise")))
+        fails += len([o for o in ep["out"] if o["type"] == MSG_USERAUTH_FAILURE and o["payload"][-1:] == b"\x00"])
+    return n
 
 
 def run_session(ctx, rng, desc):
@@ -270,7 +302,11 @@ def run_session(ctx, rng, desc):
                 dead_for += 1  # legitimately authenticated: nothing more to judge, send two more and stop
                 if dead_for >= 3:
                     break
-        sm, reached = judge(ctx, sess, desc)
+        sm, reached = judge(ctx, sess, desc, context=desc.get("context", ""))
+        if desc.get("stratum") == "extra service request":
+            note_service_requests(ctx, sess)
+            if sm.must_end:
+                ctx.count("sr_run_must_end_%s" % sm.must_end.replace(" ", "_"))
         ctx.case(("c16", repr(desc)), sample=desc if desc.get("sample") else None, nontrivial=reached)
         if sm.authed:
             ctx.count("sessions_ending_authenticated")
@@ -439,7 +475,10 @@ def run_pin_cell(ctx, rng, desc):
             sess.step(ptype, body)
             ctx.count("requests_sent")
         eps = [ep for ep in episodes(sess.rec) if ep["msg"]["type"] == MSG_USERAUTH_REQUEST]
-        cell = "pin_cell_%s_%s" % (earlier, "differs" if differs else "same")
+        pfx = desc.get("prefix", "pin")
+        cell = "%s_cell_%s_%s" % (pfx, earlier, "differs" if differs else "same")
+        if pfx != "pin":
+            note_service_requests(ctx, sess)
         ok = True
         if earlier != "none":
             want = EARLIER_HOW[earlier][2]
@@ -455,10 +494,10 @@ def run_pin_cell(ctx, rng, desc):
             if not (differs and earlier != "none"):
                 # control: a request under the pinned (or the first) name is served — the refusal in the other
                 # column is due to the name and nothing else
-                ctx.count("pin_control_request_served" if served else "pin_control_request_not_served")
+                ctx.count(pfx + ("_control_request_served" if served else "_control_request_not_served"))
             elif not served:
-                ctx.count("pin_second_username_refused")
-        sm, reached = judge(ctx, sess, desc, context=" [earlier attempt: %s]" % earlier.replace("_", " "))
+                ctx.count(pfx + "_second_username_refused")
+        sm, reached = judge(ctx, sess, desc, context=desc.get("context") or " [earlier attempt: %s]" % earlier.replace("_", " "))
         ctx.case(("c16-pin", repr(desc)), sample=desc if desc.get("sample") else None,
                  nontrivial=reached or not differs or earlier == "none")
     except FenceTimeout as e:
@@ -507,6 +546,81 @@ def run_pin_matrix(ctx, rng, deadline):
     ctx.require("pin_second_username_refused", 12 * reps)
 
 
+# ---------------------------------------------------------------------------
+# round 5: extra SSH_MSG_SERVICE_REQUEST messages in the middle of authentication (legal pre-auth traffic) as a
+# dimension of the cap runs and of the pin cells
+
+OTHER_SERVICES = ["ssh-connection", "ssh-userauth2", "", "SSH-USERAUTH", "ssh-userauth "]
+SR_CONTEXT = " [after a repeated SERVICE_REQUEST]"
+
+
+def run_service_request_stratum(ctx, rng, deadline):
+    plan = []
+    reps = ctx.pick(1, 4)
+    for rep in range(reps):
+        # cap: 15 failing attempts, one extra SERVICE_REQUEST after the k-th attempt for every k = 1..9, then 2-3 of them
+        for k in range(1, 10):
+            plan.append(("cap", [k], "ssh-userauth"))
+        for j in range(4):
+            plan.append(("cap", sorted(rng.sample(range(1, 10), rng.choice([2, 3]))), "ssh-userauth"))
+        plan.append(("cap", [9, 9, 9], "ssh-userauth"))  # three in a row right before the tenth attempt
+        for name in OTHER_SERVICES[:3 if ctx.quick else 5]:
+            plan.append(("cap", [rng.randint(1, 8)], name))
+        # pin: earlier attempt, 1-3 SERVICE_REQUESTs, then a request under another / the same name (would be granted)
+        for earlier in EARLIER[1:]:
+            for differs in (True, False):
+                for n_sr in (1, rng.choice([2, 3])):
+                    plan.append(("pin", earlier, differs, n_sr, "ssh-userauth"))
+        for name in OTHER_SERVICES[:3 if ctx.quick else 5]:
+            plan.append(("pin", rng.choice(EARLIER[1:]), True, 1, name))
+    shown = 0
+    for i, p in enumerate(plan):
+        if not ctx.mine(i):
+            continue
+        if time.time() > deadline:
+            ctx.count("sessions_not_run_time_cap")
+            continue
+        users = rng.sample(["u", "alice", "root", "bob"], 2)
+        ctx.count("sessions")
+        try:
+            if p[0] == "cap":
+                _, ks, name = p
+                seq = []
+                for a in range(1, 16):
+                    seq.append((rng.choice(GUESS_KINDS), users[0], "ssh-connection"))
+                    seq += [("service_request", "", name)] * ks.count(a)
+                desc = dict(stratum="extra service request", kind="cap", positions=ks, service=name, users=users,
+                            table=dict(ALL_FAIL), sequence=[list(x) for x in seq], context=SR_CONTEXT)
+                if shown < 1:
+                    desc["sample"] = True
+                    shown += 1
+                ctx.count("sr_cap_runs" if name == "ssh-userauth" else "sr_cap_runs_other_service_name")
+                run_session(ctx, rng, desc)
+            else:
+                _, earlier, differs, n_sr, name = p
+                table = dict(none=[S] * 8, password=[S] * 8, publickey=[S] * 8, kbd=["Q"] * 8, kbd_resp=[F] * 8)
+                kind, (key, val), _ = EARLIER_HOW[earlier]
+                table[key] = [val] + [S] * 7
+                seq = [(kind, users[0], "ssh-connection")] + [("service_request", "", name)] * n_sr
+                seq.append((rng.choice(SECOND), users[1] if differs else users[0], "ssh-connection"))
+                desc = dict(stratum="extra service request", kind="pin", earlier=earlier, differs=differs, second=seq[-1][0],
+                            n_service_requests=n_sr, service=name, users=users, table=table, sequence=[list(x) for x in seq],
+                            prefix="srpin" if name == "ssh-userauth" else "srpin_other_service", context=SR_CONTEXT)
+                run_pin_cell(ctx, rng, desc)
+        except Exception:
+            ctx.inconclusive("harness error: " + traceback.format_exc()[-900:])
+    for k in range(1, 10):
+        ctx.require("extra_service_request_read_after_%d_failures" % k, reps)
+    ctx.require("extra_service_request_own_answered_accept", 30 * reps)
+    ctx.require("sr_run_must_end_tenth_failed_attempt", 12 * reps)
+    ctx.require("extra_service_request_other_name_read_mid_auth", 4 * reps)
+    for earlier in EARLIER[1:]:
+        for col in ("differs", "same"):
+            ctx.require("srpin_cell_%s_%s" % (earlier, col), 2 * reps)
+    ctx.require("srpin_control_request_served", 8 * reps)
+    ctx.require("srpin_second_username_refused", 8 * reps)
+
+
 def run(ctx):
     rng = ctx.rng
     n = ctx.pick(256, 4000)
@@ -532,6 +646,7 @@ def run(ctx):
             ctx.inconclusive("harness error: " + traceback.format_exc()[-900:])
     run_rekey_stratum(ctx, rng, ctx.deadline(190, 1350))
     run_pin_matrix(ctx, rng, ctx.deadline(200, 1400))
+    run_service_request_stratum(ctx, rng, ctx.deadline(205, 1420))
     ctx.require("requests_read_by_victim", 1500 if ctx.quick else 15000)
     ctx.require("callbacks_logged", 1000 if ctx.quick else 10000)
     ctx.require("failed_attempts_observed", 800 if ctx.quick else 8000)
